@@ -8,7 +8,7 @@ props="$@"
 scr=$(mktemp -d /tmp/hvcchk.XXXXXX)
 rsync -a --exclude .git /repo/ "$scr/repo/"
 mkdir -p "$scr/verif"
-cp -r /verif/props.json /verif/known_findings.txt /verif/props "$scr/verif/"
+cp -r /verif/props.json /verif/known_findings.txt /verif/props /verif/findings "$scr/verif/"
 if [ "$patch" != "-" ]; then
   (cd "$scr/repo" && patch -p1 -s < "$patch") || { echo "PATCH DOES NOT APPLY"; rm -rf "$scr"; exit 3; }
 fi
